@@ -75,6 +75,10 @@ type vdebSMTarget struct {
 	via  string
 	base int // debouncer goroutines that were alive before this run's session manager was created
 
+	file    string
+	fmu     sync.Mutex
+	blocked bool
+
 	req  vdebState // what the harness has asked for so far (touched by submitter "u" only)
 	val  int       // the value Digest chose for the submission that follows
 	nops int
@@ -200,6 +204,28 @@ func (t *vdebSMTarget) Submit(c int) {
 		panic(err)
 	}
 }
+// Block / Unblock (verifkit.DebFileFault): while blocked a directory sits where the configuration
+// file belongs, so the real writeConfig fails and generateAndReloadConfigFile returns its error
+// before the reload action; afterwards the path is free again.
+func (t *vdebSMTarget) Block() {
+	t.fmu.Lock()
+	defer t.fmu.Unlock()
+	if !t.blocked {
+		_ = os.Remove(t.file)
+		_ = os.Mkdir(t.file, 0o755)
+		t.blocked = true
+	}
+}
+
+func (t *vdebSMTarget) Unblock() {
+	t.fmu.Lock()
+	defer t.fmu.Unlock()
+	if t.blocked {
+		_ = os.Remove(t.file)
+		t.blocked = false
+	}
+}
+
 func (t *vdebSMTarget) NoConf() { t.sm.reloadConfig <- reloadEvent{useOld: true} } // what validateReload sends
 func (t *vdebSMTarget) Close(clean bool) {
 	if !clean { // a submitter is still inside its call: closing the channel would panic it
@@ -258,7 +284,7 @@ func vdebMakeSM(dir string) func(env *verifkit.DebEnv) verifkit.DebTarget {
 		os.Setenv("FRR_CONFIG_FILE", file)
 		debounceTimeout = env.ReloadInterval()
 		failureTimeout = env.RetryInterval()
-		t := &vdebSMTarget{run: env.Script.ID, via: env.Script.Via, env: env, ids: map[string]int{}}
+		t := &vdebSMTarget{run: env.Script.ID, via: env.Script.Via, env: env, ids: map[string]int{}, file: file}
 		reloadConfig = func() error {
 			run, st, ok := vdebReadBack(file)
 			if !ok || run != env.Script.ID || env.Over() {
